@@ -180,7 +180,8 @@ def extract(repo: Path | None = None) -> dict:
     w = probe.probe_writeout()
     kw = probe.probe_copytree()
     return {"wipeWholeTree": w["wipeWholeTree"], "wipeFailureFatal": probe.probe_wipe_failure(),
-            "graphSkipsLinks": probe.probe_graph_links(), "copytreeSymlinks": kw["symlinks"],
+            "graphSkipsLinks": probe.probe_graph_links(), "excludeOutputByPath": probe.probe_exclude_output(),
+            "copytreeSymlinks": kw["symlinks"],
             "copytreeIgnoreDangling": kw["ignore_dangling_symlinks"], "copytreeDirsExistOk": kw["dirs_exist_ok"],
             "symbolReplacements": probe.probe_symbols(), "outDirs": w["outDirs"], "libDirs": w["libDirs"],
             "fixedNames": fixed_names(out), "listPages": list_pages()}
@@ -202,6 +203,8 @@ def generate(repo: Path | None = None) -> dict:
          "def wipeFailureFatal : Bool := " + lean_bool(t["wipeFailureFatal"]), "",
          "/-- observed: `FortranGraph.create_svg` does not write through a symbolic link under `<imgfile>` / `<imgfile>.svg` -/",
          "def graphSkipsLinks : Bool := " + lean_bool(t["graphSkipsLinks"]), "",
+         "/-- observed: the source search drops the files below the output directory also when the directory's path contains a\n    bracket expression (`w [v2]/...`), i.e. by location and not only by `fnmatch` pattern -/",
+         "def excludeOutputByPath : Bool := " + lean_bool(t["excludeOutputByPath"]), "",
          "/-- the per-character substitution of `NameSelector.get_name` (probed over an alphabet, validated on words) -/",
          "def symbolReplacements : List (Char × Str) := ["
          + ", ".join(f"('{k}', {lean_str(v)})" if (k.isascii() and k.isprintable() and k not in "'\\") else f"(Char.ofNat {ord(k)}, {lean_str(v)})" for k, v in t["symbolReplacements"]) + "]", "",
